@@ -1,6 +1,7 @@
 package c11
 
 import (
+	"bufio"
 	"bytes"
 	"context"
 	"crypto/tls"
@@ -39,6 +40,7 @@ type result struct {
 	ReqSize      int    `json:"req_size"`
 	RespSize     int    `json:"resp_size"`
 	UpSeen       int32  `json:"seen_by_upstream"`
+	CloseSeen    bool   `json:"connection_close_seen,omitempty"`
 	plan         *plan
 }
 
@@ -106,7 +108,8 @@ const reqTimeout = 20 * time.Second
 
 type h1conn struct {
 	r        *run
-	c        *mesh.H1Client
+	c        net.Conn
+	br       *bufio.Reader
 	used     bool
 	noReuse  bool
 	afterSig bool
@@ -114,15 +117,36 @@ type h1conn struct {
 
 func dialH1(r *run) (xconn, error) {
 	after := r.isSignalled()
-	c, err := mesh.DialH1(r.addr)
+	c, err := net.DialTimeout("tcp", r.addr, 3*time.Second)
 	if err != nil {
 		return nil, err
 	}
-	return &h1conn{r: r, c: c, afterSig: after}, nil
+	return &h1conn{r: r, c: c, br: bufio.NewReader(c), afterSig: after}, nil
 }
 
 func (x *h1conn) reusable() bool { return !x.noReuse }
-func (x *h1conn) close()         { x.c.Close() }
+func (x *h1conn) close()         { _ = x.c.Close() }
+
+func (x *h1conn) send(b []byte) error {
+	_ = x.c.SetWriteDeadline(time.Now().Add(10 * time.Second))
+	_, err := x.c.Write(b)
+	return err
+}
+
+// read parses one response; closeAfter reports "Connection: close" (net/http strips the header and sets Close).
+func (x *h1conn) read() (status int, hdr http.Header, body []byte, closeAfter bool, err error) {
+	_ = x.c.SetReadDeadline(time.Now().Add(reqTimeout))
+	resp, err := http.ReadResponse(x.br, &http.Request{Method: "POST"})
+	if err != nil {
+		return 0, nil, nil, false, err
+	}
+	body, err = io.ReadAll(resp.Body)
+	_ = resp.Body.Close()
+	if err != nil {
+		return 0, nil, nil, false, fmt.Errorf("body: %w", err)
+	}
+	return resp.StatusCode, resp.Header, body, resp.Close, nil
+}
 
 func (x *h1conn) do(p *plan, h *hooks, res *result) {
 	res.NewConn, res.ConnAfterSig = !x.used, x.afterSig
@@ -137,7 +161,7 @@ func (x *h1conn) do(p *plan, h *hooks, res *result) {
 		}
 		first, rest = raw[:cut], raw[cut:]
 	}
-	before, err := x.r.gated(func() error { return x.c.Send(first) })
+	before, err := x.r.gated(func() error { return x.send(first) })
 	res.BeforeSig = before
 	if err != nil {
 		x.noReuse = true
@@ -148,22 +172,23 @@ func (x *h1conn) do(p *plan, h *hooks, res *result) {
 	if rest != nil {
 		h.fire()
 		time.Sleep(h.post)
-		if err := x.c.Send(rest); err != nil {
+		if err := x.send(rest); err != nil {
 			x.noReuse = true
 			res.Kind, res.Detail = "send-error", "second part: "+err.Error()
 			return
 		}
 	}
-	resp, err := x.c.Read("POST", reqTimeout)
+	status, hdr, rbody, closeAfter, err := x.read()
 	if err != nil {
 		x.noReuse = true
 		res.Kind, res.Detail = classifyErr(err), err.Error()
 		return
 	}
-	if strings.EqualFold(resp.Header.Get("Connection"), "close") {
+	if closeAfter {
 		x.noReuse = true
+		res.CloseSeen = true
 	}
-	checkHTTP(p, resp.Status, resp.Header.Get(mesh.TokenHeader), resp.Body, res)
+	checkHTTP(p, status, hdr.Get(mesh.TokenHeader), rbody, res)
 	if !res.ok() {
 		x.noReuse = true
 	}
